@@ -3,7 +3,7 @@
 Part 1 (parser): every sequence of <= K column tokens over {date, description, amount, -amount, +amount,
 location, a, b, _, *} x 3 date formats x 4 templates (all invalid arrangements included) x 4 spellings;
 parse_format_string must return exactly the reference positions / date format / sign mode, or reject.
-Part 2 (inspect): every header row of <= K cells over 15 header texts with two data rows; when the real
+Part 2 (inspect): every header row of <= K cells over 18 header texts (plus the 5-column family: 3 mapped columns and every ordered pair of further headers in 3 arrangements) with two data rows; when the real
 cmd_inspect prints a suggestion, the parser must accept it and select the date / description / amount
 columns inspect itself reported.
 """
@@ -22,7 +22,7 @@ PROPERTY = "C18"
 LEVEL = "exploration"
 RULE = ("cases = (1) every sequence of 1..K tokens (K=4 quick, 5 thorough) over 10 column tokens x {no date format, %Y-%m-%d, '%d %b %y'} x "
         "{no template, {a}, {a} {b}, {c}} x 4 spellings (plain, blanks around commas, upper-case names, {_}<->{*}); (2) every header row of "
-        "1..K cells (K=4 quick, 5 thorough) over 15 header texts x 5 date styles in the data rows (all 5 for rows narrower than K, the default style for K-cell rows) fed to the real `tally inspect`. non-trivial = arrangement that the reference "
+        "1..K cells (K=4 quick, 5 thorough) over 18 header texts (plus the 5-column family: 3 mapped columns and every ordered pair of further headers in 3 arrangements) x 5 date styles in the data rows (all 5 for rows narrower than K, the default style for K-cell rows) fed to the real `tally inspect`. non-trivial = arrangement that the reference "
         "accepts, or rejects for a reason other than a missing required field; header rows for which inspect prints a suggestion; all distinct by construction")
 ASSUMPTIONS = ["arrangements with a {description} column AND a template whose columns are all captured are not judged (the property does not say)",
                "date formats containing a comma are outside the alphabet", "inspect is run in-process with stdout captured"]
